@@ -47,6 +47,15 @@ pub enum Op {
 #[derive(Clone, Debug, Serialize, Deserialize)]
 pub struct Case {
 	pub ops: Vec<Op>,
+	/// false: both twins run under SKIP_POW with free per-block difficulty, so a rejected block on an ancestor of
+	/// the head can carry a valid header with MORE work than the header head at a height not above it (with real
+	/// proofs of work a block below the head never has more work)
+	#[serde(default = "yes")]
+	pub real: bool,
+}
+
+fn yes() -> bool {
+	true
 }
 
 fn bad() -> impl Strategy<Value = Bad> {
@@ -90,10 +99,10 @@ pub fn case_strategy(max_ops: usize) -> impl Strategy<Value = Case> {
 		8 => (bad(), any::<u16>()).prop_map(|(b, p)| vec![Op::Bad(b, p)]),
 		1 => Just(vec![Op::Reopen]),
 	];
-	prop::collection::vec(seg, 4..=max_ops).prop_map(move |segs| {
+	(prop::collection::vec(seg, 4..=max_ops), prop::bool::weighted(0.7)).prop_map(move |(segs, real)| {
 		let mut ops: Vec<Op> = segs.into_iter().flatten().collect();
 		ops.truncate(max_ops + 4);
-		Case { ops }
+		Case { ops, real }
 	})
 }
 
@@ -190,9 +199,9 @@ pub fn run_case(ctx: &Ctx, case: &Case, counting: bool) -> PResult {
 	let ev = &ctx.ev;
 	let mut a = ChainBox::open(&ctx.scratch_dir("c06a")).map_err(|e| Fail::new("init-fresh", e))?;
 	let mut b = ChainBox::open(&ctx.scratch_dir("c06b")).map_err(|e| Fail::new("init-fresh", e))?;
-	let mut w = World::new(&a.genesis, true);
+	let mut w = World::new(&a.genesis, case.real);
 	let mut head = 0usize;
-	let o = Options::NONE;
+	let o = if case.real { Options::NONE } else { Options::SKIP_POW };
 	let cat = block_catalogue();
 	let mut stages: BTreeSet<String> = BTreeSet::new();
 	let (mut good_after_bad, mut reorg_after_bad, mut seen_bad) = (0u32, 0u32, false);
@@ -298,6 +307,10 @@ pub fn run_case(ctx: &Ctx, case: &Case, counting: bool) -> PResult {
 						if tb.valid {
 							continue;
 						}
+						// under SKIP_POW neither the proof of work nor the difficulty claim is looked at
+						if !case.real && matches!(t, BlockT::TotalDifficultyPlus | BlockT::BadPowNonce) {
+							continue;
+						}
 						let res = a.c().process_block(tb.block.clone(), o);
 						ensure!(res.is_err(), format!("bad-input-accepted:{:?}", t), "op {}: corrupted block {:?} accepted", i, t);
 						stages.insert(format!("{:?}", tb.stage));
@@ -329,6 +342,7 @@ pub fn run_case(ctx: &Ctx, case: &Case, counting: bool) -> PResult {
 						}
 						seen_bad = true;
 					}
+					Bad::HeaderBatchSecondBad(_) if !case.real => continue, // (a wrong difficulty claim is not refused under SKIP_POW)
 					Bad::HeaderBatchSecondBad(raw) => {
 						let h1 = valid_header(&a, &mut w, raw, head)?;
 						// child of h1 claiming a wrong cumulative difficulty, mined for it
